@@ -29,7 +29,7 @@ NAMES = ["x", "y", "z"]
 
 
 def bounds(tier):
-    return {"max_ndim": 3, "axis_lengths": [0, 1, 2, 3, 4] if tier != "quick" else [0, 1, 3, 4], "fill": ["nan", -9], "methods": [None, "left", "right"]}
+    return {"max_ndim": 3, "axis_lengths": [0, 1, 2, 3, 4] if tier != "quick" else [0, 1, 3, 4], "fill": ["nan", -9, "np.float32(-1.5)"], "data": "coordinate-encoded and (every second array) magnitudes above 2**24", "methods": [None, "left", "right"]}
 
 
 def newlabel_menu(lab, kind):
@@ -84,7 +84,7 @@ def _spec(sh):
             kk, ll = o.pop(0)
             labels.append(ll); kinds.append(kk)
     return D.spec(NAMES[:sh["nd"]], labels, kinds, vk=sh["vk"], var=D.VARIANTS[sh["k"] % len(D.VARIANTS)] if sh["n"] else "fresh",
-                  attrs={"units": "K"}, axattrs={NAMES[sh["p"]]: {"long_name": "coord"}})
+                  attrs={"units": "K"}, axattrs={NAMES[sh["p"]]: {"long_name": "coord"}}, enc="big" if (sh["k"] // 2) % 2 == 0 else None)
 
 
 def cases(sh, tier):
@@ -103,6 +103,7 @@ def cases(sh, tier):
                 for fill in ("nan", -9):
                     yield {"a": s, "p": p, "new": new, "nm": name, "form": form, "axisarg": axisarg, "fill": fill}
                 if form == "list":
+                    yield {"a": s, "p": p, "new": new, "nm": name, "form": form, "axisarg": axisarg, "fill": "f32"}     # fill_value=np.float32(-1.5)
                     yield {"a": s, "p": p, "new": new, "nm": name, "form": form, "axisarg": axisarg, "fill": "nan", "raise_error": True}
                     for method in ("left", "right"):
                         yield {"a": s, "p": p, "new": new, "nm": name, "form": form, "axisarg": axisarg, "fill": "nan", "method": method}
@@ -178,6 +179,9 @@ def check(case):
     a = D.build_impl(s)
     before = common.snap(a)
     fill = float("nan") if case["fill"] == "nan" else case["fill"]
+    fill_impl = fill
+    if fill == "f32":       # a NumPy scalar of lower precision as fill value: the DATA must not be narrowed to its type
+        fill, fill_impl = -1.5, np.float32(-1.5)
     if "like" in case:
         t = D.build_impl(case["like"]); rt = D.build_ref(case["like"])
         got = call(a.reindex_like, t, fill_value=fill)
@@ -195,7 +199,7 @@ def check(case):
     kind = s["kinds"][p]
     method = case.get("method")
     arg = _newarg(new, kind, case["form"], ra.dims[p])
-    kw = {"fill_value": fill}
+    kw = {"fill_value": fill_impl}
     if case["form"] != "axis":
         kw["axis"] = ra.dims[p] if case["axisarg"] == "name" else p
     if case.get("raise_error"):
